@@ -68,9 +68,16 @@ func HarnessC15() {
 		e.Name = c15Names[verif.Choose("name", len(c15Names))]
 		e.Mode = int64(verif.Int("mode") & 0777)
 		e.Mtime = 1000 + int64(verif.Byte("mtime")&0x3f)
+		if verif.Param("atime", 0) == 1 && verif.Bool("atime") {
+			e.Atime = 2000 + int64(i) // a recorded access time (PAX/GNU archives), different from the mtime
+		}
 		p := c15Clean(e.Name)
 		r := refEntry{path: p, perm: uint32(e.Mode), mtime: e.Mtime, seq: i}
-		switch verif.Choose("type", 4) {
+		ty := 1
+		if verif.Param("onlyDirs", 0) == 0 {
+			ty = verif.Choose("type", 4)
+		}
+		switch ty {
 		case 0:
 			e.Typeflag = tar.TypeReg
 			if len(e.Name) > 0 && e.Name[len(e.Name)-1] == '/' {
